@@ -65,7 +65,7 @@ C01_NoPartialCommit ==
 
 \* a transaction that failed before commit altered no configuration
 C01_FailedNeverMerged ==
-    \A i \in DOMAIN txs : (txs[i].ph.val = "F" \/ txs[i].ph.init = "F") => \A t \in Targets : ~Merged(t, i)
+    \A i \in DOMAIN txs : (txs[i].ph.val = "F" \/ txs[i].ph.init = "F") => \A t \in (DOMAIN dev) : ~Merged(t, i)
 
 \* once idle, all named targets or none
 C01_AtomicAtQuiescence ==
@@ -183,7 +183,7 @@ C06_RollbackRefused ==
     \A i \in DOMAIN txs : (txs[i].kind = "rollback" /\ Terminal(txs[i])) =>
         LET rb == txs[i].rb
             bad == rb \notin DOMAIN txs \/ rb >= i \/ txs[rb].kind = "rollback"
-        IN bad => (txs[i].state = "FAILED" /\ \A t \in Targets : ~Merged(t, i))
+        IN bad => (txs[i].state = "FAILED" /\ \A t \in (DOMAIN dev) : ~Merged(t, i))
 
 -----------------------------------------------------------------------------
 (* C07 - a crash loses nothing and repeats nothing *)
@@ -198,7 +198,7 @@ C07_NoneSkipped ==
 \* the crash-free outcome of a log is a function of its content (sequential reference semantics)
 RECURSIVE RefRun(_)
 RefRun(n) ==
-    IF n = 0 THEN [cfg |-> [t \in Targets |-> EmptyFn], stack |-> [t \in Targets |-> << >>], out |-> << >>]
+    IF n = 0 THEN [cfg |-> [t \in (DOMAIN dev) |-> EmptyFn], stack |-> [t \in (DOMAIN dev) |-> << >>], out |-> << >>]
     ELSE LET R == RefRun(n - 1)
              tx == txs[n]
          IN IF tx.kind = "change" THEN
@@ -206,16 +206,16 @@ RefRun(n) ==
                     valid == \A t \in DOMAIN tx.ch : \A path \in DOMAIN cand[t] : ~IsInvalidValue(cand[t][path])
                     rejs == {RejectCode(tx.ch[t][path]) : t \in DOMAIN tx.ch, path \in UNION {DOMAIN tx.ch[t2] : t2 \in DOMAIN tx.ch}}
                 IN IF ~valid THEN [R EXCEPT !.out = Append(@, "FAILED")]
-                   ELSE [cfg |-> [t \in Targets |-> IF t \in DOMAIN tx.ch THEN cand[t] ELSE R.cfg[t]],
-                         stack |-> [t \in Targets |-> IF t \in DOMAIN tx.ch THEN Append(R.stack[t], [i |-> n, before |-> R.cfg[t]]) ELSE R.stack[t]],
+                   ELSE [cfg |-> [t \in (DOMAIN dev) |-> IF t \in DOMAIN tx.ch THEN cand[t] ELSE R.cfg[t]],
+                         stack |-> [t \in (DOMAIN dev) |-> IF t \in DOMAIN tx.ch THEN Append(R.stack[t], [i |-> n, before |-> R.cfg[t]]) ELSE R.stack[t]],
                          out |-> Append(R.out, "COMMITTED")]
             ELSE
                 LET rb == tx.rb
                     okrb == /\ rb \in 1..(n - 1) /\ txs[rb].kind = "change"
                             /\ \A t \in DOMAIN txs[rb].ch : R.stack[t] # << >> /\ R.stack[t][Len(R.stack[t])].i = rb
                 IN IF ~okrb THEN [R EXCEPT !.out = Append(@, "FAILED")]
-                   ELSE [cfg |-> [t \in Targets |-> IF t \in DOMAIN txs[rb].ch THEN R.stack[t][Len(R.stack[t])].before ELSE R.cfg[t]],
-                         stack |-> [t \in Targets |-> IF t \in DOMAIN txs[rb].ch THEN SubSeq(R.stack[t], 1, Len(R.stack[t]) - 1) ELSE R.stack[t]],
+                   ELSE [cfg |-> [t \in (DOMAIN dev) |-> IF t \in DOMAIN txs[rb].ch THEN R.stack[t][Len(R.stack[t])].before ELSE R.cfg[t]],
+                         stack |-> [t \in (DOMAIN dev) |-> IF t \in DOMAIN txs[rb].ch THEN SubSeq(R.stack[t], 1, Len(R.stack[t]) - 1) ELSE R.stack[t]],
                          out |-> Append(R.out, "COMMITTED")]
 
 \* whether the reference run commits transaction i (the apply outcome additionally depends on the device)
@@ -228,7 +228,7 @@ C07_SameDecision ==
 
 \* and the stored configurations end as the sequential reference says
 C07_SameConfiguration ==
-    (Stable /\ AllTerminal) => \A t \in Targets : GetView(t) = RefRun(Len(txs)).cfg[t]
+    (Stable /\ AllTerminal) => \A t \in (DOMAIN dev) : GetView(t) = RefRun(Len(txs)).cfg[t]
 
 -----------------------------------------------------------------------------
 (* C08 - every Set / rollback is answered, truthfully *)
@@ -290,6 +290,8 @@ C10_SyncBeforeApply_Act ==
     \A k \in NewDevEntries : LET e == devlog'[k] IN
         (e.ctl = "prop" /\ e.t \in DOMAIN cfgs) =>
             (cfgs[e.t].state = "SYNCHRONIZED" /\ cfgs[e.t].aterm = e.eid)
+
+C10_Acts == [][C10_TermMonotone_Act /\ C10_NewTermOnReassign_Act /\ C10_WriteCarriesTerm_Act /\ C10_SyncBeforeApply_Act]_vars
 
 \* within one term of one device boot all writes use one connection
 C10_OneMasterPerTerm ==
